@@ -620,7 +620,7 @@ RECURSIVE PlainLoop(_, _, _)
 PlainLoop(t, a, indent) ==
   LET s == a.s IN
   IF s.err # "" THEN a
-  ELSE IF (s.lw /\ IsDocInd(t, s)) \/ Peek(t, s, 0) = "#" THEN a
+  ELSE IF (s.col = 0 /\ IsDocInd(t, s)) \/ Peek(t, s, 0) = "#" THEN a
   ELSE IF s.flow > 0 /\ a.str = <<>> /\ Peek(t, s, 0) = "-" /\ Peek(t, s, 1) \in FlowC
   THEN [a EXCEPT !.s = Fail(s, "plain scalar cannot start with '-' followed by ,[]{}")]
   ELSE LET a1 == IF Peek(t, s, 0) \notin BlankZ /\ CanPlain(t, s)
